@@ -54,8 +54,7 @@ def classify(prog, opts, obs):
     if obs["failure"]:
         f = obs["failure"]
         return "reported-failure:%s:%s" % (f["stage"], f["exception_type"]), []
-    if any(any(w in m for w in L.FAILURE_WARNINGS) for m in obs["warnings"]):
-        return "reported-failure:warning", []
+    warned = any(any(w in m for w in L.FAILURE_WARNINGS) for m in obs["warnings"])
     c = obs["checks"]
     bad = []
     required = prog["affine"] or "reduce_affine_expression" not in opts
@@ -86,6 +85,8 @@ def classify(prog, opts, obs):
         elif c["rank"] is not None and c["n_unknowns"] is not None and c["rank"] != c["n_unknowns"]:
             bad.append(("not-unique", "Jacobian wrt %d unknowns (der_states+alg_states) has rank %d (%d equations)" % (
                 c["n_unknowns"], c["rank"], c["n_eq"])))
+    if warned:      # the code reported failure by a warning: nothing is required of the result (tallied, with what it was)
+        return "reported-failure:warning(result %s)" % ("wrong: " + ",".join(sorted({o for o, _ in bad})) if bad else "correct"), []
     return tally, bad
 
 
@@ -215,7 +216,7 @@ def run(ctx, prop):
     pairs = {}
     for i, p in enumerate(progs):
         chosen = [pool[0]] + [pool[(i * 7 + j * 13 + 1) % len(pool)] for j in range(per_bp - 1)]
-        pairs[i] = [sorted(s) for s in {frozenset(c) for c in chosen}]
+        pairs[i] = [list(t) for t in sorted({tuple(sorted(c)) for c in chosen})]
     directed = 0
     for c in cex:
         i = bykey.get(bpkey(c["bp"]))
